@@ -467,6 +467,8 @@ pub mod sched {
         allowed: HashSet<ThreadId>,
         done: HashSet<ThreadId>,
         registered: HashSet<ThreadId>,
+        /// Threads that consumed a grant and have not parked since (running, or blocked on a lock).
+        in_flight: HashSet<ThreadId>,
     }
 
     static ON: AtomicBool = AtomicBool::new(false);
@@ -584,6 +586,7 @@ pub mod sched {
                 let e = s.arrivals.entry(id).or_insert((0, name));
                 e.0 += 1;
                 e.1 = name;
+                s.in_flight.remove(&id);
             }
             _ => return,
         }
@@ -593,6 +596,7 @@ pub mod sched {
                 None => return,
                 Some(s) => {
                     if s.allowed.remove(&id) {
+                        s.in_flight.insert(id);
                         return;
                     }
                 }
@@ -604,6 +608,11 @@ pub mod sched {
     /// Let thread `id` run to its next scheduling point (returns its name), to
     /// completion (`Some("")` is never produced; completion is `None`), or
     /// report a stall after `timeout` (`Some("<stall>")`).
+    ///
+    /// A thread that was let go earlier and has not parked since (a step that
+    /// ended in a stall: it is blocked on a lock, or still running) is only
+    /// waited for, not granted a second step: a grant left over from such a
+    /// call would carry it through its next point without the controller.
     pub fn step(id: ThreadId, timeout: Duration) -> Option<&'static str> {
         let deadline = Instant::now() + timeout;
         let mut g = lock();
@@ -612,7 +621,9 @@ pub mod sched {
             .and_then(|s| s.arrivals.get(&id).map(|a| a.0))
             .unwrap_or(0);
         if let Some(s) = g.as_mut() {
-            s.allowed.insert(id);
+            if !s.in_flight.contains(&id) {
+                s.allowed.insert(id);
+            }
         }
         CV.notify_all();
         loop {
